@@ -2,7 +2,7 @@
 use core::future::Future;
 use core::ops::{ControlFlow, Deref};
 use core::pin::Pin;
-use core::sync::atomic::{AtomicBool, Ordering};
+use core::sync::atomic::{AtomicUsize, Ordering};
 use core::time::Duration;
 
 use alloc::boxed::Box;
@@ -269,8 +269,10 @@ where
     /// DNS protocol idle time out tracking.
     idle_timer: IdleTimer,
 
-    /// Is a transaction in progress?
-    in_transaction: Arc<AtomicBool>,
+    /// The number of requests that are currently being processed.
+    ///
+    /// As long as there are any, the connection is not idle.
+    in_transaction: Arc<AtomicUsize>,
 
     /// [`ServerMetrics`] describing the status of the server.
     metrics: Arc<ServerMetrics>,
@@ -324,7 +326,7 @@ where
             mpsc::channel(config.max_queued_responses);
         let config = Arc::new(ArcSwap::from_pointee(config));
         let idle_timer = IdleTimer::new();
-        let in_transaction = Arc::new(AtomicBool::new(false));
+        let in_transaction = Arc::new(AtomicUsize::new(0));
 
         // Place the ReadHalf of the stream into an Option so that we can take
         // it out (as we can't clone it and we can't place it into an Arc
@@ -645,7 +647,7 @@ where
     ) -> Result<(), ConnectionEvent> {
         // DNS idle timeout elapsed, or was it reset?
         if self.idle_timer.idle_timeout_expired(timeout)
-            && !self.in_transaction.load(Ordering::SeqCst)
+            && self.in_transaction.load(Ordering::SeqCst) == 0
         {
             trace!("Timing out idle connection");
             Err(ConnectionEvent::DisconnectWithoutFlush)
@@ -729,8 +731,14 @@ where
 
                         let mut dispatcher = self.request_dispatcher.clone();
                         let service = self.service.clone();
+
+                        // The connection is not idle while the request is
+                        // being processed.
+                        let in_transaction =
+                            InTransaction::new(self.in_transaction.clone());
                         tokio::spawn(async move {
-                            dispatcher.dispatch(request, service, ()).await
+                            dispatcher.dispatch(request, service, ()).await;
+                            drop(in_transaction);
                         });
                     }
                 }
@@ -941,6 +949,25 @@ impl Display for ConnectionEvent {
                 write!(f, "Disconnect with flush")
             }
         }
+    }
+}
+
+//------------ InTransaction ------------------------------------------------
+
+/// Marks a request as being processed for as long as the value lives.
+struct InTransaction(Arc<AtomicUsize>);
+
+impl InTransaction {
+    /// Counts one more request as being processed.
+    fn new(count: Arc<AtomicUsize>) -> Self {
+        count.fetch_add(1, Ordering::SeqCst);
+        Self(count)
+    }
+}
+
+impl Drop for InTransaction {
+    fn drop(&mut self) {
+        self.0.fetch_sub(1, Ordering::SeqCst);
     }
 }
 
